@@ -268,14 +268,20 @@ def run_splitter(ctx, case):
         ctx.sample({'guess_residue_restrains sizes (3, 7)': gaddlemaps.guess_residue_restrains(r1, mem_residue(7, prefix='C'))})
 
 
-def multi_res_molecule(rng, sizes, resnames, name, prefix):
+def multi_res_molecule(rng, sizes, resnames, name, prefix, top_resids=None):
+    """top_resids: residue numbers written in the topology when they are not those of the coordinate residues (a
+    hand-written topology with 'resnr 1' on every atom, say)."""
     n = sum(sizes)
     names = [f'{prefix}{i}' for i in range(n)]
     rn = [resnames[r] for r, s in enumerate(sizes) for _ in range(s)]
     rid = [r + 1 for r, s in enumerate(sizes) for _ in range(s)]
     edges = gen.chain(n)
     pos = gen.embed_graph(rng, n, edges)
-    return gen.make_molecule(name, names, edges, pos, resnames=rn, resids=rid)
+    if top_resids is None:
+        return gen.make_molecule(name, names, edges, pos, resnames=rn, resids=rid)
+    from gaddlemaps.components import Molecule
+    mt = gen.make_top(name, names, rn, top_resids, edges)
+    return Molecule(mt, gen.make_residues(names, rn, rid, pos))
 
 
 def run_protein(ctx, case):
@@ -311,6 +317,21 @@ def run_protein(ctx, case):
             ctx.violation('protein-guess-accepts-different-residue-counts', f'{nres} vs {nres - drop} residues returned {len(out)} pairs')
         except Exception:  # noqa
             pass
+        if it % 4 == 0:
+            # homopolymers whose topologies write one residue number for every atom: the molecules still have nres and
+            # nres - drop residues (their coordinate residues), and must be refused
+            try:
+                h1 = multi_res_molecule(rng, s1, ['PEG'] * nres, 'PROT', 'B', top_resids=[1] * sum(s1))
+                h3 = multi_res_molecule(rng, s2[:nres - drop], ['PEG'] * (nres - drop), 'PROT', 'C', top_resids=[1] * sum(s2[:nres - drop]))
+                ctx.hit('guess:mismatching-residue-count:topology-groups-differently')
+                try:
+                    out = gaddlemaps.guess_protein_restrains(h1, h3)
+                    ctx.violation('protein-guess-accepts-different-residue-counts', f'homopolymers of {nres} and {nres - drop} residues '
+                                  f'(topology residue number 1 everywhere) returned {len(out)} pairs')
+                except Exception:  # noqa
+                    pass
+            except Exception as exc:  # noqa
+                ctx.count('homopolymer_molecule_not_buildable:' + type(exc).__name__)
         if rng.random() < 0.5:
             try:
                 out = gaddlemaps.guess_protein_restrains(m3, m1)
